@@ -496,4 +496,4 @@ def run(ctx, prj: Project):
     ctx.complement("R3", lambda: rule_R3(ctx, prj), decided, by="the evaluated walk (R6)")
     ctx.complement("R4", lambda: rule_R4(ctx, prj), decided, by="the evaluated walk (R6)")
     # the who-may-call table names the functions of the reviewed architecture; when they moved, the evaluated entry points decide
-    ctx.complement("R5", lambda: rule_R5(ctx, prj), decided, by="the evaluated walk (R6)")
+    ctx.complement("R5", lambda: rule_R5(ctx, prj), decided, demote=True, by="the evaluated walk (R6)")
